@@ -23,7 +23,10 @@ def all_generators():
         for fn in sorted(os.listdir(gdir)):
             if fn.endswith(".py") and not fn.startswith("_"):
                 mod = importlib.import_module("gen." + fn[:-3])
-                gens.append(mod.generate)
+                g = mod.generate
+                g.gen_name = fn[:-3]
+                g.outputs = list(getattr(mod, "OUTPUTS", []))
+                gens.append(g)
     return gens
 
 
@@ -51,6 +54,7 @@ def main():
     seed = int(os.environ.get("VERIF_SEED", "20260923"))
     ctx = core.Ctx(pid, args.tier, seed)
     mod = importlib.import_module("props." + pid.lower())
+    ctx.generators = getattr(mod, "GENERATORS", None)
     coverage = {}
     assumptions = []
     try:
